@@ -212,6 +212,28 @@ func (pc *ProtoCtx) Build(st map[string]interface{}) ([]byte, M, error) {
 			if t, ok := lp["tok"].(M); ok {
 				t["mut"] = "trunc"
 			}
+		} else if cls == "wide" && ck != "none" {
+			// the same characters with a non-zero high byte in one, a few or all of the code units (U+0100+c ... U+7F00+c):
+			// another string, however its low bytes read
+			u := tsgu.UTF16LE(cookie)
+			n := len(u) / 2
+			switch rng.Intn(3) {
+			case 0:
+				u[2*rng.Intn(n)+1] = byte(1 + rng.Intn(0x7f))
+			case 1:
+				for k := 0; k < 5; k++ {
+					u[2*rng.Intn(n)+1] = byte(1 + rng.Intn(0x7f))
+				}
+			default:
+				hb := byte(1 + rng.Intn(0x7f))
+				for k := 0; k < n; k++ {
+					u[2*k+1] = hb
+				}
+			}
+			pkt = tsgu.TunnelCreateRaw(0x2, 0x1, uint16(len(u)), u)
+			if t, ok := lp["tok"].(M); ok {
+				t["mut"] = "wide"
+			}
 		} else if cls == "long" && ck != "none" {
 			u := tsgu.UTF16LE(cookie)
 			// the declared cookie is longer than what is carried: the gateway sees the string followed by k NUL units.
